@@ -62,6 +62,7 @@ public class Num {
     public static Value NMod(Value a, Value b) { return natV(nat(a).mod(nat(b))); }
     public static Value NGcd(Value a, Value b) { return natV(nat(a).gcd(nat(b))); }
     public static Value NPow(Value a, Value k) { return natV(nat(a).pow(((IntValue) k).val)); }
+    public static Value NSqrt(Value a) { return natV(nat(a).sqrt()); }
     public static Value NTen(Value k) { return natV(BigInteger.TEN.pow(((IntValue) k).val)); }
 
     public static Value QMk(Value s, Value n, Value d) {
